@@ -259,6 +259,19 @@ func Note(label string, value int64) {
 // poll for fairness (a retry loop around it must yield).
 var timerCh = func() chan struct{} { c := make(chan struct{}); close(c); return c }()
 
+// Sleep stands in for a time.Sleep statement of rewritten code: inside an execution it is a yield that counts
+// as a poll (so a sleep-and-check loop must let other threads run) and no wall-clock time passes.
+func Sleep(d time.Duration) {
+	if InExec() {
+		Point(Op{Kind: KStep, Label: "sleep"})
+		return
+	}
+	if Teardown() {
+		return
+	}
+	time.Sleep(d)
+}
+
 // After stands in for time.After inside rewritten code: an always-ready channel inside an execution.
 func After(d time.Duration) any {
 	if InExec() || Teardown() {
@@ -404,6 +417,9 @@ func chanKey(ch any) any { return reflect.ValueOf(ch).Pointer() }
 
 // Config of one exploration.
 type Config struct {
+	// TopMod > 0 splits one exploration into TopMod independent units: unit TopRem explores, below the default
+	// execution, only the subtrees whose first deviation is at a point i with i % TopMod == TopRem.
+	TopMod, TopRem int
 	// Coarse: only the first FineBound preemptions may happen at a poll (atomic load) of the running
 	// thread; later ones only at its other operations (locks, stores, pool and channel operations).
 	Coarse    bool
@@ -615,7 +631,7 @@ func Run(cfg Config, prefix []int, body func()) *Exec {
 			}
 			t.polls = 0
 		}
-		if t.pending.Kind == KLoad || (t.pending.Kind == KSelect && isTimer(t.pending.Chans[a.variant])) {
+		if t.pending.Kind == KLoad || (t.pending.Kind == KStep && t.pending.Label == "sleep") || (t.pending.Kind == KSelect && isTimer(t.pending.Chans[a.variant])) {
 			t.polls++
 		}
 		e.apply(t, a.variant)
@@ -715,6 +731,9 @@ func Explore(cfg Config, bound int, body func(), check func(e *Exec) bool, stats
 		choices := e.Choices()
 		for i := len(prefix); i < len(e.Points); i++ {
 			p := e.Points[i]
+			if parent == nil && cfg.TopMod > 0 && i%cfg.TopMod != cfg.TopRem {
+				continue
+			}
 			for alt := 1; alt < len(p.Enabled); alt++ {
 				c := used
 				// switching away from a runnable running thread is a preemption; choosing another
